@@ -264,6 +264,18 @@ def record_reader(ctx, R, roles, T, rule="REC"):
         if "hidden_helpers._FileSyncTransactionInfo" in ctx.cg.var_types.get(f, {}).get(p, ()):
             info = p
     sizes = [T.term(f, n, ctx.cg.site(c).bind(fb).get("size")) for n, c in reads]
+    # a size-or-None variable read inside the arm of `A if v is None else read(v)`: in that arm v is not None
+    for i_, (n_, c_) in enumerate(reads):
+        t_ = sizes[i_]
+        ae = unawait(ctx.cg.site(c_).bind(fb).get("size"))
+        if t_[0] == "ite" and (t_[2] == ("c", None)) != (t_[3] == ("c", None)) and isinstance(ae, ast.Name):
+            for e in n_.exprs():
+                for x in ast.walk(e):
+                    if isinstance(x, ast.IfExp) and isinstance(x.test, ast.Compare) and len(x.test.ops) == 1 and isinstance(x.test.left, ast.Name) and x.test.left.id == ae.id \
+                            and isinstance(x.test.comparators[0], ast.Constant) and x.test.comparators[0].value is None and isinstance(x.test.ops[0], (ast.Is, ast.IsNot)):
+                        arm = x.orelse if isinstance(x.test.ops[0], ast.Is) else x.body
+                        if any(y is c_ for y in ast.walk(arm)):
+                            sizes[i_] = t_[3] if t_[2] == ("c", None) else t_[2]
     hi = [i for i, s in enumerate(sizes) if s == ("attr", ("p", info), "recv_message_size")]
     R.check(len(hi) == 1, rule, q + "|header-size", "header read size = size of the transaction's record format", "no read requests exactly recv_message_size bytes (sizes: %s)" % ", ".join(show(s) for s in sizes), f.loc())
     if len(hi) != 1:
@@ -337,7 +349,20 @@ def _stat_only(ctx, f, rn, T, cid):
             # a flag: True in one arm, False in the other
             return says_stat(t[1], pol if t[2][1] else not pol)
         return False
+    from ..terms import never_none
+    for c_, v_ in T._revealed_conditions(f, rn, 0).items():
+        if says_stat(c_, v_):
+            return True
     for fa in df.facts(rn):
+        if fa[0][0] == "is" and len(fa[0]) == 3 and key(ast.Constant(value=None)) in fa[0][1:]:
+            # a size-or-None flag: `v is None` where v = None for STAT and something that is never None otherwise
+            other = [x for x in fa[0][1:] if x != key(ast.Constant(value=None))]
+            if len(other) == 1:
+                t = T.term(f, rn, eval_dump(other[0]))
+                if t[0] == "ite" and t[2] == ("c", None) and never_none(t[3]) and says_stat(t[1], fa[1]):
+                    return True
+                if t[0] == "ite" and t[3] == ("c", None) and never_none(t[2]) and says_stat(t[1], not fa[1]):
+                    return True
         if fa[0][0] == "truthy":
             if says_stat(T.term(f, rn, eval_dump(fa[0][1])), fa[1]):
                 return True
